@@ -40,9 +40,12 @@ GW_EXTRA = {
     "int_first_v": {"method": "Variable", "series": [[0, 2], [20, 0.5], [9999, 1]]},
     "int_all_c": {"method": "Constant", "series": [[0, 3], [10, 2], [20, 1]]},
     "int_last_c": {"method": "Constant", "series": [[0, 1.75], [15, 0.6], [30, 2]]},
+    # observations not listed in chronological order (an earlier reading appended at the end): interpolation is by DATE
+    "unsorted_v": {"method": "Variable", "series": [[30, 0.5], [9999, 0.9], [0, 2.4]]},
+    "unsorted4_v": {"method": "Variable", "series": [[16, 0.4], [0, 2.0], [30, 1.6], [8, 1.0]]},
 }
 A.GW.update(GW_EXTRA)
-ALL_GW = ["none", "0.3", "0.8", "1.5", "2.5", "6", "50", "rising_c", "rising_v", "falling_v", "falling_c", "two_v", "four_c", "four_v", "late_v", "late_c", "early_v", "early_c", "all_before_c", "0", "touch0_v", "touch0_c", "0.05", "int_first_c", "int_first_v", "int_all_c", "int_last_c"]
+ALL_GW = ["none", "0.3", "0.8", "1.5", "2.5", "6", "50", "rising_c", "rising_v", "falling_v", "falling_c", "two_v", "four_c", "four_v", "late_v", "late_c", "early_v", "early_c", "all_before_c", "0", "touch0_v", "touch0_c", "0.05", "int_first_c", "int_first_v", "int_all_c", "int_last_c", "unsorted_v", "unsorted4_v"]
 
 
 def scenarios(tier, seed=0):
